@@ -326,6 +326,11 @@ def show(t, names=None):
     if op == 'proj': return '%s%s' % (show(t[1], names), show_path((t[2],)))
     if op == 'iter': return 'iter.%s(%s)' % (t[1], ', '.join(show_path(a) if _is_path(a) else show(a, names) for a in t[2:]))
     if op == 'powi': return '%s^%s' % (show(t[1], names), t[2])
+    if op == 'seq':
+        srcs = []
+        for src in t[1]:
+            srcs.append(src[0] + '(' + ', '.join(show_path(y) if _is_path(y) else (show(y, names) if _is_term(y) else str(y)) for y in src[1:]) + ')')
+        return 'seq[%s | k0 -> %s]' % ('; '.join(srcs), show(t[2], names))
     return op + '(' + ', '.join(show(a, names) if isinstance(a, tuple) else str(a) for a in t[1:]) + ')'
 
 
